@@ -1,12 +1,15 @@
 #!/bin/sh
-# runs every mutation control (mutants/Cxx.json) against the quick checks and writes controls_summary.txt
+# runs every mutation control (mutants/Cxx.json) against the quick checks, four properties at a time, and writes controls_summary.txt
 cd "$(dirname "$0")/.." || exit 2
 out=controls_summary.txt
-: > $out.tmp
+tmpd=$(mktemp -d /tmp/controls_XXXXXX)
+ls mutants/C*.json | sed 's#mutants/##; s#\.json##' | xargs -P 4 -I{} sh -c 'timeout 14400 tools/muttest.py {} 2>&1 | grep -v "^WARN" | cut -c1-220 > '"$tmpd"'/{}.txt'
+: > $out.new
 for f in mutants/C*.json; do
   p=$(basename $f .json)
-  echo "### $p" >> $out.tmp
-  timeout 7200 tools/muttest.py $p 2>&1 | grep -v "^WARN" | cut -c1-220 >> $out.tmp
+  echo "### $p" >> $out.new
+  cat $tmpd/$p.txt >> $out.new
 done
-mv $out.tmp $out
+mv $out.new $out
+rm -rf $tmpd
 echo done
